@@ -10,6 +10,7 @@ CONSTANTS
   Buf = 1
   Fixes = {"D1", "D14", "D2", "D18", "D19", "D20", "D21"}
   ColorOnly = TRUE
+  Modes = {}
   ReplayLen = 8
 INVARIANTS LineForLine
 CHECK_DEADLOCK FALSE
